@@ -15,6 +15,8 @@ package config
 //@   assert_at[C09,C19] WriteTo "p.Paillier.WriteTo(w)": wlog(w) == wcat(wcat(old(wlog(w)), benc(p.ECDSA)), benc(p.ElGamal))
 //@   assert_at[C09,C19] WriteTo "p.Pedersen.WriteTo(w)": wlog(w) == wcat(wcat(wcat(old(wlog(w)), benc(p.ECDSA)), benc(p.ElGamal)), nbytes(p.Paillier.n.Modulus))
 
+// A well-formed secret configuration as keygen/refresh/UnmarshalBinary produce it (struct invariant of Config).
+//@ pred cfgwf(c *Config) := cfgok(c) && c.ECDSA != nil && c.ElGamal != nil && c.Paillier != nil && pkok(c.Paillier.PublicKey)
 //@ pred cfgok(c *Config) := c != nil && c.Group != nil && c.Public != nil && forall(k, party.ID, indom(c.Public, k) ==> pubok(c.Public[k]))
 
 // The group key (C02, C01): the sum over ALL parties j of the table of lagr(all parties, x_j) * X_j.
@@ -42,3 +44,17 @@ package config
 //@   assert_at[C15] NewPublicKey "paillier.NewPublicKey(p.N)": arg0 != nil && nbits(natval(arg0)) == 2048
 //@   assert_at[C15] New "Pedersen: pedersen.New(paillierPublic.Modulus(), p.S, p.T)": arg1 != nil && arg2 != nil
 //@   ensures[C15,C20] result == nil ==> (c.Threshold >= 0 && c.Threshold < len(c.Public) && indom(c.Public, c.ID))
+
+// ---- signer-set validation (C20)
+//@ func ValidThreshold
+//@   nopanic[C05,C20]
+//@   modifies nothing
+//@   ensures[C20] result == (0 <= t && t <= 4294967295 && n > 0 && t <= n - 1)
+
+//@ func (*Config).CanSign
+//@   nopanic[C05,C20]
+//@   requires c != nil
+//@   modifies nothing
+//@   ensures[C20] result ==> (0 <= c.Threshold && c.Threshold <= len(signers) - 1 && idsvalid(signers) && inslice(signers, c.ID))
+//@   ensures[C20] result ==> each(signers, j, indom(c.Public, j))
+//@   loop 1: invariant each(signers[:rangeindex+1], j, indom(c.Public, j))
